@@ -69,8 +69,33 @@ TRUE = const(True)
 FALSE = const(False)
 
 
+# different import paths of the same external object (trusted: sklearn re-exports)
+EXTERNAL_ALIASES = {
+    "sklearn.utils.check_consistent_length": "sklearn.utils.validation.check_consistent_length",
+    "sklearn.utils.check_array": "sklearn.utils.validation.check_array",
+    "sklearn.utils.check_random_state": "sklearn.utils.validation.check_random_state",
+    "sklearn.utils.check_scalar": "sklearn.utils.validation.check_scalar",
+    "sklearn.utils.validation.check_is_fitted": "sklearn.utils.validation.check_is_fitted",
+    "sklearn.clone": "sklearn.base.clone",
+    "sklearn.utils.Bunch": "sklearn.utils.Bunch",
+}
+
+
 def glob(name: str) -> T:
-    return mk("global", name)
+    return mk("global", EXTERNAL_ALIASES.get(name, name))
+
+
+def root_of(t: T) -> T:
+    """The underlying container of an updated / loop-summarised value (identity of the object)."""
+    while True:
+        if t.op == "upd":
+            t = t.args[0]
+        elif t.op == "loopvar":
+            t = t.args[2]
+        elif t.op == "loopout":
+            t = t.args[2]
+        else:
+            return t
 
 
 def neg(c: T) -> T:
@@ -600,8 +625,9 @@ class Evaluator:
 
     def _s_If(self, s, st):
         c = self._expr(s.test, st)
-        self._emit("branch", s, st, cond=c)
+        bev = self._emit("branch", s, st, cond=c)
         folded = self._fold_truth(c)
+        bev.data["folded"] = folded
         if folded is True:
             return self._block(s.body, st)
         if folded is False:
@@ -1002,8 +1028,9 @@ class Evaluator:
 
     def _e_IfExp(self, e, st):
         c = self._expr(e.test, st)
-        self._emit("branch", e, st, cond=c)
+        bev = self._emit("branch", e, st, cond=c)
         folded = self._fold_truth(c)
+        bev.data["folded"] = folded
         if folded is True:
             return self._expr(e.body, st)
         if folded is False:
@@ -1119,7 +1146,6 @@ class Evaluator:
                     kwargs.extend((const_value(kk), vv) for kk, vv in v.args[0])
                 else:
                     kwargs.append(("**", v))
-                    star = True
             else:
                 kwargs.append((k.arg, v))
         return self._call(fterm, args, kwargs, st, e, star)
@@ -1188,8 +1214,9 @@ class Evaluator:
                         ev.data["noreturn"] = True
                         ev.data["result"] = ret
                         return ret
+                    _h = dict(final.heap)
                     st.heap.clear()
-                    st.heap.update(final.heap)
+                    st.heap.update(_h)
                     st.pc = final.pc
                     ev.data["result"] = ret
                     return ret
@@ -1221,8 +1248,9 @@ class Evaluator:
                 sub = State(bound, st.heap, st.pc)
                 ret, final, _ = self._activate(init, cls_fq, sub, inst, callsite=node)
                 if final is not None:
+                    _h = dict(final.heap)
                     st.heap.clear()
-                    st.heap.update(final.heap)
+                    st.heap.update(_h)
                     st.pc = final.pc
         return inst
 
@@ -1255,7 +1283,10 @@ class Evaluator:
         konly = [p.arg for p in a.kwonlyargs]
         for k, v in kwargs:
             if k == "**":
-                return None
+                if a.kwarg is None:
+                    return None
+                extra.append((mk("dictsplat"), v))
+                continue
             if k in names or k in konly:
                 if k in bound:
                     return None
@@ -1342,8 +1373,9 @@ class Evaluator:
         for s2, v2 in rets[1:]:
             state, cond = merge_states(state, s2)
             val = ite(cond, val, v2)
+        _h = dict(state.heap)
         st.heap.clear()
-        st.heap.update(state.heap)
+        st.heap.update(_h)
         st.pc = state.pc
         ev.data["result"] = val
         return val
